@@ -66,14 +66,17 @@ CHECKS["C08"] = (True, TV, "translation validation per program: reference interp
     "For every ordered pair (and sampled / all triples) of the 13 binary operators, with and without parentheses, in return / assignment / initialiser / += context, "
     "the program is compiled by the real lexer, parser, passes and lowering and executed on the real VM with symbolic operands; the reference interpreter evaluates the "
     "tree the statement prescribes and z3 decides per joint path that no operand values distinguish them. A concrete gate compares the shape of the real parse tree "
-    "with the prescribed tree (groupings no values can distinguish) and the IR listing across whitespace layouts.",
-    "Trusts z3, the proxy model (floats as reals), the reference interpreter O1. Operands in [-1000,1000]; float % and literal-after-operator spellings outside.", "DESIGN.md 5 (C08)")
+    "with the prescribed tree (groupings no values can distinguish) and the IR listing across whitespace layouts, with variable and (signed) literal operands. "
+    "Float64 part: for the same-level pairs whose groupings agree over the reals (+ +, + - quick; * *, * / thorough) z3's floating-point theory finds binary64 operands, as variables and "
+    "as literal constants, on which the groupings differ; both optimisation levels must return the left-to-right value.",
+    "Trusts z3, the proxy model (floats as reals outside the Float64 part), the reference interpreter O1. Operands in [-1000,1000]; float % outside.", "DESIGN.md 5 (C08), 11.2")
 
 CHECKS["C01"] = (True, TV, "translation validation per program: reference interpreter O1 vs the real front end, lowering and VM on symbolic arguments and globals (symx + z3)",
     "Every member of family F1 (a fixed core set of ~400 systematic programs over all operators, compound assignments, ++/--, every loop form with break/continue "
     "and nesting, arrays, structs, globals, re-initialised locals; plus VERIF_SEED-generated random scalar programs) is compiled by the real lexer, parser, passes and lowering, "
     "linked and run on the real VM with symbolic arguments and symbolic initial globals; the reference interpreter runs first on the same symbols and contributes the domain "
-    "assumptions. z3 decides per joint path that no input makes the return value or any global differ; a VM exception or non-termination on a feasible path is a violation.",
+    "assumptions. z3 decides per joint path that no input makes the return value or any global differ; a VM exception or non-termination on a feasible path is a violation. "
+    "The core set runs as an unoptimised and as an optimised build.",
     "Trusts z3, the proxy model (Python int = Int, float = Real: rounding abstracted), the reference interpreter (validated against the 51 programs of tests/test_vm.py on every run). "
     "Loop trip counts <= 3 (quick) / 4 (thorough); programs outside the family are outside the claim.", "DESIGN.md 5 (C01)")
 
